@@ -5,6 +5,7 @@ from lib import Case, hx, doc_case, unhx
 import xmlcanon, scene
 from scene import fmt, dy
 
+DOC_MODEL = True     # every generated document also runs through the composed Coq model of the whole transform
 RULE = ('generated reference DAGs over 2-7 id-carrying sibling elements (rect / circle / ellipse / line / group containers), every '
         'relspec form (|h |H |v |V gaps, @loc with offsets, ~scalar, relative sizes wh="#id", surround / inside lists), the referenced '
         'element\'s geometry spelled both ways (wh vs width/height, r vs wh, relative vs absolute position); every sibling order for n <= 5 '
